@@ -79,6 +79,14 @@ def gen_program(rng, length, mix):
             prog.append(["colview", s, rng.randint(0, 3)])
         elif o == "selcols":
             prog.append(["selcols", s, [rng.randint(0, 3) for _ in range(rng.randint(1, 3))]])
+        elif o == "sel2d":                # t[rows, column(s)]: a row slice (often one covering every row) with one column / several
+            whole = rng.random() < 0.5
+            rows = [rng.choice([None, 0]), rng.choice([None, 9, 99]), rng.choice([None, 1])] if whole else \
+                [rng.choice([None, 0, 1, -1, 2]), rng.choice([None, 0, 1, 2, -1, 9]), rng.choice([None, 1, 2, -1])]
+            cols = rng.randint(0, 3) if rng.random() < 0.6 else [rng.randint(0, 3) for _ in range(rng.randint(1, 3))]
+            prog.append(["sel2d", s, rows, cols, rng.random() < 0.5])
+        elif o == "window":
+            prog.append(["window", s, rng.randint(0, 3)])
         elif o == "stack":
             prog.append(["stack", s, rng.choice([["slot", s2], ["lit", rand_vals(rng, n)], ["dict", "n", rand_vals(rng, n)],
                                                  ["dictslot", rng.choice(["n", "q", "a"]), s2]])])
@@ -456,6 +464,37 @@ def _exec(w, pop, changed_ok):
             got = t.cols()[pop[2] % len(cols)] if via == 0 else (t[c._name] if c._name is not None and via == 1 else c)
             w.held.append(got)
             op_term = f"ORead {cnat(w.handle_of(got))}"
+        elif kind == "sel2d":
+            t = w.slot(pop[1], "t")
+            cols = t.__dict__["_underlying"]
+            if not cols:
+                raise Skip()
+            n = len(cols[0])
+            key = slice(*pop[2])
+            idx = list(range(n))[key]
+            sel = f"(Some {clist(cnat(i) for i in idx)})"
+            first = {}
+            for c in cols:
+                first.setdefault(c._name, c)
+            if isinstance(pop[3], int):
+                c = cols[pop[3] % len(cols)]
+                if pop[4] and c._name is not None:
+                    c = first[c._name]
+                    r = t[key, c._name]
+                else:
+                    r = t[key, pop[3] % len(cols)]
+                if isinstance(r, Table) or not isinstance(r, Vector):
+                    raise Skip()
+                op_term = _vec_result(w, r, f"(CFrom {cnat(w.handle_of(c))} {sel})")
+            else:
+                picked = [cols[i % len(cols)] for i in pop[3]]
+                if any(c._name is None for c in picked):
+                    raise Skip()
+                picked = [first[c._name] for c in picked]
+                r = t[key, tuple(c._name for c in picked)]
+                if not isinstance(r, Table):
+                    raise Skip()
+                op_term = _table_result(w, r, [f"(CFrom {cnat(w.handle_of(c))} {sel})" for c in picked])
         elif kind == "selcols":
             t = w.slot(pop[1], "t")
             cols = t.__dict__["_underlying"]
@@ -526,9 +565,17 @@ def _exec(w, pop, changed_ok):
             if not isinstance(r, Table):
                 raise Skip()
             op_term = _table_result(w, r, specs)
-        elif kind in ("transpose", "sort", "math", "join"):
+        elif kind in ("transpose", "sort", "math", "join", "window"):
             o = w.slot(pop[1])
-            if kind == "join":
+            if kind == "window":
+                if not isinstance(o, Table) or not o._underlying or len(o) == 0:
+                    raise Skip()
+                kc = o._underlying[pop[2] % len(o._underlying)]
+                if kc._dtype is None or kc._dtype.kind not in (int, str) or any(type(x) is float for x in kc._underlying):
+                    raise Skip()
+                r = o.window(over=kc, count_over=kc) if pop[2] % 2 else o.window(over=kc._name if kc._name is not None else kc,
+                                                                                  count_over=kc)
+            elif kind == "join":
                 o2 = w.slot(pop[2], "t")
                 if not isinstance(o, Table) or not o._underlying or not o2._underlying:
                     raise Skip()
@@ -775,8 +822,22 @@ def _newtab(w, ht, specs, chs, sids, tsid):
             f"{clist(cnat(s) for s in sids)} {cnat(tsid)}")
 
 
+def _known(w, obj):
+    """the handle of an object the program already knows (held, or a column of a held table), else None"""
+    return w.handle_of(obj, create=False)
+
+
 def _table_result(w, t, specs, lit_dtypes=False):
     cols = t.__dict__["_underlying"]
+    old = [(j, _known(w, c)) for j, c in enumerate(cols)]
+    if _known(w, t) is not None:
+        w.findings.append(f"C01-result-is-operand: the operation returned the table object h{_known(w, t)} the program already "
+                          f"holds instead of a new table (a write through either is a write to both)")
+    for j, h in old:
+        if h is not None:
+            w.findings.append(f"C01-result-is-operand: column {j} of the table the operation returned IS the existing vector "
+                              f"h{h} (a live column of / a vector handed to the operation): a write, rename or promotion "
+                              f"through either shows through the other")
     chs = [w.handle_of(c) for c in cols]
     ht = w.handle_of(t)
     w.held.append(t)
@@ -789,6 +850,10 @@ def _table_result(w, t, specs, lit_dtypes=False):
 
 
 def _vec_result(w, r, spec):
+    if _known(w, r) is not None:
+        w.findings.append(f"C01-result-is-operand: the operation returned the existing vector h{_known(w, r)} (a live column "
+                          f"of a table / an operand) instead of a new vector: a write, rename or promotion through either "
+                          f"shows through the other")
     h = w.handle_of(r)
     w.held.append(r)
     return f"ONewVec {cnat(h)} {spec} None {cnat(w.sid(r.__dict__['_underlying']))}"
